@@ -30,6 +30,12 @@ theorem runs_nextHelperVar : Runs nextHelperVar := fun s => ⟨_, _, rfl⟩
 theorem runs_varAssignment (n v : String) (g : Bool) : Runs (varAssignment n v g) := by
   unfold varAssignment; exact runs_bind runs_get (fun _ => runs_addLine _)
 
+theorem runs_varAssignSliceLen (n v : String) (g : Bool) : Runs (varAssignSliceLen n v g) := by
+  unfold varAssignSliceLen; exact runs_bind runs_get (fun _ => runs_addLine _)
+
+theorem runs_varAssignStrLen (n : String) (g : Bool) : Runs (varAssignStrLen n g) := by
+  unfold varAssignStrLen; exact runs_bind runs_get (fun _ => runs_addLine _)
+
 theorem runs_varEvaluation (n : String) (g : Bool) : Runs (varEvaluation n g) := by
   unfold varEvaluation; exact runs_bind runs_get (fun _ => runs_pure _)
 
@@ -102,7 +108,7 @@ theorem runs_sliceEvaluation (n i : String) : Runs (sliceEvaluation n i) := by
   exact runs_bind runs_nextHelperVar (fun _ => runs_bind runs_get (fun _ => runs_bind (runs_addLine _) (fun _ => runs_varEvaluation _ _)))
 
 theorem runs_sliceLen (n : String) : Runs (sliceLen n) := by
-  unfold sliceLen; exact runs_bind runs_nextHelperVar (fun _ => runs_assign_eval _ _)
+  unfold sliceLen; exact runs_bind runs_nextHelperVar (fun _ => runs_bind (runs_varAssignSliceLen _ _ _) (fun _ => runs_varEvaluation _ _))
 
 theorem runs_stringSubscript (v a b : String) : Runs (stringSubscript v a b) := by
   unfold stringSubscript
@@ -111,7 +117,7 @@ theorem runs_stringSubscript (v a b : String) : Runs (stringSubscript v a b) := 
 
 theorem runs_stringLen (v : String) : Runs (stringLen v) := by
   unfold stringLen
-  exact runs_bind runs_nextHelperVar (fun _ => runs_bind (runs_varAssignment _ _ _) (fun _ => runs_bind runs_get (fun _ => runs_assign_eval _ _)))
+  exact runs_bind runs_nextHelperVar (fun _ => runs_bind (runs_varAssignment _ _ _) (fun _ => runs_bind (runs_varAssignStrLen _ _) (fun _ => runs_varEvaluation _ _)))
 
 theorem runs_copyRets : ∀ (n i : Nat), Runs (copyRets n i) := by
   intro n
@@ -143,8 +149,8 @@ theorem runs_inputOp (p : String) : Runs (inputOp p) := by
 theorem runs_copyOp (d s : String) (g : Bool) : Runs (copyOp d s g) := by
   unfold copyOp
   exact runs_bind runs_get (fun _ => runs_bind (runs_addLine _) (fun _ => runs_bind (runs_modify _) (fun _ =>
-    runs_bind runs_nextHelperVar (fun _ => runs_bind runs_get (fun _ => runs_bind (runs_varAssignment _ _ _) (fun _ =>
-      runs_bind runs_get (fun _ => runs_pure _)))))))
+    runs_bind runs_nextHelperVar (fun _ => runs_bind (runs_varAssignSliceLen _ _ _) (fun _ =>
+      runs_bind runs_get (fun _ => runs_pure _))))))
 
 theorem runs_existsOp (p : String) : Runs (existsOp p) := by
   unfold existsOp; exact runs_bind runs_nextHelperVar (fun _ => runs_test_eval _ _ _ _)
